@@ -4,6 +4,7 @@ import L4.Matchers.Winbox
 import L4.Matchers.Wireguard
 import L4.Matchers.More
 import L4.Gen.Census
+import L4.Proofs.Rdp
 /-!
 # C04 — No remote input makes a matcher panic or allocate without bound
 
@@ -341,5 +342,18 @@ theorem winbox_total (cfg : Cfg) : Total (matcher cfg) := by
       by_cases h : (hdr.headD 0).toNat = l4winbox_MessageChunkBytesMax
       · simp only [wanted, if_pos h, allocBound, layer4_MaxMatchingBytes, l4winbox_MessageAuthBytesMax]; omega
       · simp only [wanted, if_neg h, allocBound, layer4_MaxMatchingBytes]; omega
+
+/-! ## rdp: header, CR LF scan, cookie / token / custom-info blocks, negotiation request, correlation info -/
+
+/-- **The RDP matcher never panics**: every index and slice expression of `MatchRDP.Match` (the CR LF scan, the cookie,
+token and custom-info blocks with their configured filters, `RDP_NEG_REQ`, `RDP_NEG_CORRELATION_INFO`) is in range for
+every configuration and every byte string a client can send. -/
+theorem rdp_total (cfg : Rdp.Cfg) (bs : Bytes) : Rdp.matcher cfg bs ≠ .panic := Rdp.matcher_ne_panic cfg bs
+
+/-- what the RDP matcher allocates is bounded by the header it has read: 11 + at most 249 + 1 bytes -/
+theorem rdp_alloc_bound (h : Bytes) (n : Nat) (hh : Rdp.header h = .ok (some n)) :
+    l4rdp_RDPConnReqBytesMin + n + 1 ≤ allocBound := by
+  have := Rdp.header_payload_le h n hh
+  simp only [allocBound, layer4_MaxMatchingBytes, l4rdp_RDPConnReqBytesMin]; omega
 
 end L4.C04
